@@ -65,6 +65,7 @@ ENGINES = {
     "e_cif": {"dir": "e_cif", "units": [("e_cif.cpp", {}), ("$REPO/c-interface/cpgm.cpp", {})]},
     "e_reject": {"dir": "e_reject", "units": [("e_reject.cpp", {}), ("reject_static.cpp", {}), ("reject_dynamic.cpp", {}), ("reject_misc.cpp", {}),
                                                ("$REPO/c-interface/cpgm.cpp", {})]},
+    "e_copy": {"dir": "e_copy", "units": [("e_copy.cpp", {})]},
     "e_variants": {"dir": "e_variants", "units": [
         ("inst.cpp", {"VF_KEY": "uint8_t", "VF_KEYID": "u8", "VF_KEYBITS": "8"}),
         ("inst.cpp", {"VF_KEY": "uint16_t", "VF_KEYID": "u16", "VF_KEYBITS": "16"}),
@@ -117,6 +118,8 @@ CHECKS = {
                      "plus every file of replays/regress/*. non-trivial: n <= 3 or data touching lowest()/max-1 or a chunked build or a query outside "
                      "[front,back] (static families), a merge beyond the buffer (dynamic), every multidimensional case; distinct by canonical tape hash"),
             "quick": {"shards": 1, "cases": 700, "crash_shrink_budget": 300}, "thorough": {"shards": 2, "cases": 40000, "crash_shrink_budget": 600}},
+    "C19": {"engine": "e_copy", "variant": "asan",
+            "quick": {"shards": 8, "cases": 1200, "crash_shrink_budget": 300}, "thorough": {"shards": 16, "cases": 40000, "crash_shrink_budget": 600}},
     "C07": {"engine": "e_static",
             "quick": {"shards": 8, "cases": 4000}, "thorough": {"shards": 16, "cases": 120000}},
 }
@@ -208,6 +211,10 @@ DESCR = {
                      "replays, run against ASan builds of every index class; any ASan report (or crash) on an in-domain case is a violation, minimised in forked children",
             "design_ref": "DESIGN.md section 6 C17", "note": "trusted: AddressSanitizer (g++ 12) as the memory oracle; reads inside live allocations of the wrong object are invisible to it; vendored sdsl code is in scope only as far as the index classes call it",
             "technique": "fuzz-style property-based testing with AddressSanitizer as oracle"},
+    "C19": {"level": "stateful generated-input search under AddressSanitizer: scripts of copy/move construction and assignment, destruction of sources, recycling of "
+                     "freed memory, updates of sources and queries; every live value must keep answering exactly like its lineage",
+            "design_ref": "DESIGN.md section 6 C19", "note": "trusted: AddressSanitizer for use-after-free of source-owned storage; 64-bit digests of the answers (collision probability negligible); MappedPGMIndex is not in C19's list and is not exercised",
+            "technique": "stateful property-based testing (digest equality) with AddressSanitizer as second oracle"},
     "C07": {"level": "generated-input search with the routing hook: per level the chosen segment must be the responsible one, within EpsRec+1 of the prediction, "
                      "found inside the 2*EpsRec+3 window; level sizes obey floor(m/(2*EpsRec+1))+c",
             "design_ref": "DESIGN.md section 6 C07", "note": _STATIC_NOTE + "; relies on the PGM_INDEX_VERIF route_event hook",
